@@ -304,6 +304,18 @@ class Oracle:  # pylint: disable=too-many-instance-attributes
             if 'counts' in en:
                 state2 = rawread.read_state(side.folder)
                 check_counts(world, side, handle, state2)
+                if op['op'] == 'clean':
+                    # cleaning == "for each loose object: remove it if it is packed", whatever the number of objects
+                    # and the lookup batches they fall into (C16): no key may be left both loose and packed
+                    left = sorted(r['hashkey'][:12] for r in state2.rows if r['hashkey'] in state2.loose)
+                    if left:
+                        _fail(world, 'clean-left-packed-loose-copies', f'{len(left)} objects are still loose although packed: {left[:5]}')
+                if op['op'] == 'pack_loose':
+                    # packing == "pack each loose object": afterwards every loose object has an index row
+                    rows = {r['hashkey'] for r in state2.rows}
+                    left = sorted(k[:12] for k in state2.loose if k not in rows)
+                    if left:
+                        _fail(world, 'pack-left-loose-objects-unpacked', f'{len(left)} loose objects were not packed: {left[:5]}')
             if 'meta' in en:
                 check_meta_rows(world, side, handle, state)
             if 'validate' in en:
